@@ -79,9 +79,13 @@ Definition prep_check (p : prep) : bool :=
   (drops (p_st p) =? 0) &&
   inv_check g (p_K p) (p_st p) && inrange_b (p_vmap p) (p_K p).
 
-(* (image mask footprint) -> bool : the set-up state of this instance satisfies the invariant *)
+(* (image mask footprint offset) -> bool : the set-up state of this instance satisfies the invariant *)
 Definition entry_prep_check (x : sx) : sx :=
   let image := as_Zss (arg 0 x) in
   let mask := as_Zss (arg 1 x) in
   let fp := as_boolss (arg 2 x) in
-  of_bool (accepted image mask fp && prep_check (prepare image mask fp)).
+  match as_Zs (arg 3 x) with
+  | [o0; o1] => of_bool (accepted_common image mask fp &&
+                         prep_check (prepare_offs image mask fp (fp_offsets_at fp o0 o1)))
+  | _ => of_bool (accepted image mask fp && prep_check (prepare image mask fp))
+  end.
